@@ -4,7 +4,7 @@
    with the observed post-state; the executable statements of the properties selected by
    [t_specs] are evaluated on the implementation's observations. *)
 From Coq Require Import NArith List Bool.
-From DudV Require Import Model.Render Model.Init.
+From DudV Require Import Model.Render Model.Init Model.Remote.
 From DudV Require Import Base.Bytes Base.Blake3 Base.Json Base.GoPath Model.Fs Model.Cache Model.Stage Model.Index Model.System.
 Import ListNotations.
 Local Open Scope N_scope.
@@ -386,6 +386,28 @@ Definition spec_valid_log (w : world) (targets : list bytes) (single : bool) (lo
     forallb (fun s => negb (on_cycle idx s)) log
   end.
 
+(* C08/C11: the stages a successful push / fetch announces ([log], in completion order) are exactly
+   the requested stages and (unless --single-stage) everything upstream of them - the model's
+   traversal [Remote.visited] - each once, a stage's owners before the stage itself *)
+Definition spec_visit (w : world) (targets : list bytes) (single : bool) (log : list bytes) : bool :=
+  match load_index (w_index w) (w_stages w) [] with
+  | None => true
+  | Some idx =>
+    let recursive := match targets with [] => true | _ => negb single end in
+    match Remote.visited idx recursive (all_or targets idx) with
+    | Err => false
+    | Ok sps =>
+      nodup_b log &&
+      forallb (fun s => mem s sps) log && forallb (fun s => mem s log) sps &&
+      (negb recursive ||
+       forallb (fun b => forallb (fun a =>
+          match index_of a log 0, index_of b log 0 with
+          | Some i, Some j => Nat.ltb i j
+          | _, _ => true
+          end) (owners_of idx b)) log)
+    end
+  end.
+
 (* C09: after a successful recursive run every visited stage with a command has outputs that
    are what its command produces from the current inputs *)
 Definition spec_consistent (sems : list (bytes * cmdsem)) (w : world) (targets : list bytes) : bool :=
@@ -564,6 +586,10 @@ Definition spec_table (c : tcase) : list (N * bool) :=
    (21, (node_eqb (w_root (t_pre c)) (w_root (t_post c))));
    (18, ((if t_ok c then spec_valid_log (t_pre c) (fst (run_args c)) (snd (run_args c)) (run_log c) else true)));
    (19, ((if t_ok c then spec_consistent (t_sems c) (t_post c) (fst (run_args c)) else true)));
+   (28, (match t_cmd c with
+          | CPush ts sg | CFetch ts sg => if t_ok c then spec_visit (t_pre c) ts sg (run_log c) else true
+          | _ => true
+          end));
    (23, (match load_index (w_index (t_pre c)) (w_stages (t_pre c)) [] with
      | Some idx => forallb (fun s => negb (on_cycle idx s)) (run_log c)
      | None => true
